@@ -6,7 +6,7 @@ import statsmodels.formula.api as smf
 import gen
 from common import rq, fx, unfx, enc_list, close
 
-REQUIRED = ['iptw_saturated', 'iptw_measures_saturated', 'gformula_saturated', 'aipw_saturated']
+REQUIRED = ['iptw_saturated', 'iptw_measures_saturated', 'gformula_saturated', 'gformula_generated', 'aipw_saturated']
 RULE = ('random data sets with 1-3 categorical covariates (arity 2-4, <= 12 strata), positivity by construction, '
         'outcome binary / normal / count, with and without integer frequency weights; configuration cells enumerated '
         'per data set: IPTW stabilized x standardize (6), g-formula standardize (3), AIPTW, TMLE; every nuisance model '
@@ -135,6 +135,10 @@ def run_gformula(chk, drv, df, covs, ytype, wcol, cf, dsid, rec):
             rep, _ = drv.ask('gform', c='f', tgt=tgt, q1=enc_list(q1, fx), q0=enc_list(q0, fx), **to_float(kw))
             chk.k(rep['status'] == 'ok' and close(unfx(rep['g1']), r1, rtol=1e-10) and close(unfx(rep['g0']), r0, rtol=1e-10),
                   'g-formula marginal = model on the predictions', dict(case, model=rep))
+            for pred, got, lab in ((q1, r1, 'all'), (q0, r0, 'none')):
+                rep2, _ = drv.ask('gfmarg', c='f', hasw=int(bool(wcol)), tgt=tgt, pred=enc_list(pred, fx), **to_float(kw))
+                chk.k(rep2['status'] == 'ok' and close(unfx(rep2['m']), got, rtol=1e-10),
+                      "g-formula fit('%s') marginal = definition generated from its source" % lab, dict(case, model=rep2))
 
 
 def to_float(kw):
